@@ -134,14 +134,15 @@ fn clean_after_in_order_ack_history_is_send_order() {
     let mut cases = 0u64;
     let mut fail: Option<String> = None;
     for n in 1..=nmax() {
-        // ops: 0 = publish (if window not full and no collision), 1 = ack oldest
-        for code in 0..(1u64 << depth) {
+        // ops: 0 = publish (if window not full and no collision), 1 = ack oldest, 2 = connection failure + session resume
+        // (clean(), then the carried-over requests are replayed first, as the event loop does)
+        for code in 0..3u64.pow(depth as u32) {
             let mut st = MqttState::new(n as u16, false);
             let mut sent: std::collections::VecDeque<Publish> = Default::default();
             let mut script = String::new();
             let mut tag = 0u8;
             for k in 0..depth {
-                let op = (code >> k) & 1;
+                let op = (code / 3u64.pow(k as u32)) % 3;
                 if op == 0 {
                     if st.inflight >= st.max_inflight || st.collision.is_some() {
                         continue;
@@ -158,10 +159,33 @@ fn clean_after_in_order_ack_history_is_send_order() {
                             break;
                         }
                     }
-                } else if let Some(p) = sent.pop_front() {
-                    script.push_str(&format!("ack{} ", p.pkid));
-                    if st.handle_incoming_packet(Incoming::PubAck(PubAck::new(p.pkid))).is_err() {
-                        fail = Some(format!("input=[n={} script={}] detail=[in-order ack rejected]", n, script));
+                } else if op == 1 {
+                    if let Some(p) = sent.pop_front() {
+                        script.push_str(&format!("ack{} ", p.pkid));
+                        if st.handle_incoming_packet(Incoming::PubAck(PubAck::new(p.pkid))).is_err() {
+                            fail = Some(format!("input=[n={} script={}] detail=[in-order ack rejected]", n, script));
+                            break;
+                        }
+                    }
+                } else {
+                    script.push_str("fail+resume ");
+                    let pending = st.clean();
+                    let exp: Vec<Request> = sent.iter().cloned().map(Request::Publish).collect();
+                    if pending != exp {
+                        fail = Some(format!("input=[n={} script={}] detail=[clean returned ids {:?}, send order was {:?}]", n, script,
+                            pending.iter().map(|r| match r { Request::Publish(p) => p.pkid, _ => 0 }).collect::<Vec<_>>(), sent.iter().map(|p| p.pkid).collect::<Vec<_>>()));
+                        break;
+                    }
+                    for r in pending {
+                        match st.handle_outgoing_packet(r.clone()) {
+                            Ok(Some(Packet::Publish(q))) if Request::Publish(q.clone()) == r => {}
+                            other => {
+                                fail = Some(format!("input=[n={} script={}] detail=[replay of {:?} produced {:?}]", n, script, r, other.map(|_| ())));
+                                break;
+                            }
+                        }
+                    }
+                    if fail.is_some() {
                         break;
                     }
                 }
@@ -183,7 +207,7 @@ fn clean_after_in_order_ack_history_is_send_order() {
         }
     }
     match fail {
-        None => println!("VERIF-OBLIGATION {} props=C11 bound=\"all publish/ack-oldest scripts of length {} from new(n), n 1..={}\" cases={} ok", name, depth, nmax(), cases),
+        None => println!("VERIF-OBLIGATION {} props=C11 bound=\"all scripts of length {} over publish / ack-oldest / failure+resume from new(n), n 1..={}\" cases={} ok", name, depth, nmax(), cases),
         Some(f) => {
             println!("VERIF-FAIL {} props=C11 {}", name, f);
             panic!("{}", f);
